@@ -15,6 +15,7 @@
 package table
 
 import (
+	"bytes"
 	"time"
 
 	"github.com/B1NARY-GR0UP/originium/pkg/bufferpool"
@@ -133,5 +134,5 @@ func Build(entries []types.Entry, dataBlockSize, level int) (Index, []byte) {
 		panic(err)
 	}
 
-	return indexBlock, buf.Bytes()
+	return indexBlock, bytes.Clone(buf.Bytes())
 }
